@@ -17,10 +17,19 @@
 //
 // Fault classes beyond stream send/receive failures, follower restart / log loss / offline and
 // leader gc / tail loss:
+//
 //   - several followers that hold different amounts of the log when the leader loses its log tail
 //     (or its whole log), resynchronised in a generated order;
+//
 //   - a follower that cannot append while the stream stays open: its wal partition is closed
 //     (shutting down; the shutdown ends with a restart) or the next appends to its log fail.
+//
+//   - the follower's own log life cycle under an open stream (followerlog_test.go): the follower
+//     side is the production WriteAheadLogManager + writeAheadLog (fake engine behind it), so the
+//     partition object that serves the unary calls (GetReplicaAckIndex / Reset: looked up in the
+//     write ahead log at every call) and the one that serves an open stream (resolved by
+//     ReplicaHandler.Replica when the stream was created, and kept) are whatever production makes
+//     them; the periodic wal housekeeping (writeAheadLog.destroy) is an operation of the history.
 //
 // After the generated history faults stop, a probe message is written and every follower must
 // end up with every position the leader holds, the probe included.
@@ -44,11 +53,13 @@ import (
 	"time"
 
 	"github.com/lindb/common/pkg/logger"
+	"github.com/lindb/common/pkg/ltoml"
 	"google.golang.org/grpc"
 	"google.golang.org/grpc/metadata"
 	"pgregory.net/rapid"
 
 	storagerpc "github.com/lindb/lindb/app/storage/rpc"
+	"github.com/lindb/lindb/config"
 	"github.com/lindb/lindb/coordinator/storage"
 	"github.com/lindb/lindb/models"
 	"github.com/lindb/lindb/pkg/option"
@@ -89,14 +100,37 @@ func (d *fakeDB) GetOption() *option.DatabaseOption { return d.opt }
 type fakeShard struct {
 	tsdb.Shard
 	db *fakeDB
+	f  *follower // the node this shard lives on (nil: the leader)
 }
 
 func (s *fakeShard) Database() tsdb.Database { return s.db }
 func (s *fakeShard) ShardID() models.ShardID { return 0 }
 
+// GetOrCrateDataFamily: what the follower's write ahead log asks the engine for when it creates a partition.
+func (s *fakeShard) GetOrCrateDataFamily(_ int64) (tsdb.DataFamily, error) {
+	if s.f == nil {
+		return nil, errors.New("harness: the leader's partition is not created through a write ahead log")
+	}
+	return s.f.family, nil
+}
+
+// fakeEngine is the engine behind the write ahead log of a follower.
+type fakeEngine struct {
+	tsdb.Engine
+	f *follower
+}
+
+func (e *fakeEngine) GetShard(db string, id models.ShardID) (tsdb.Shard, bool) {
+	if db != dbName || id != 0 {
+		return nil, false
+	}
+	return e.f.shard, true
+}
+
 type fakeFamily struct {
 	tsdb.DataFamily
 	w *world
+	f *follower // the node this family lives on (nil: the leader)
 }
 
 // TimeRange: the harness owns the family's time range (no clock seam): in the extended histories
@@ -104,6 +138,13 @@ type fakeFamily struct {
 // operation 'the write window passes'; from then on - and in the plain histories, where nobody
 // asks - the family lies in the far past (2023).
 func (f *fakeFamily) TimeRange() timeutil.TimeRange {
+	if f.f != nil {
+		// a follower judges the write window by its own clock (see opFollowerWalTask)
+		if !f.f.clockPassed {
+			return timeutil.TimeRange{Start: familyTime, End: farFuture}
+		}
+		return timeutil.TimeRange{Start: familyTime, End: familyTime + 3600_000 - 1}
+	}
 	if f.w != nil && f.w.ext && !f.w.windowPassed {
 		return timeutil.TimeRange{Start: familyTime, End: farFuture}
 	}
@@ -135,12 +176,27 @@ type follower struct {
 	flaps      atomic.Int32 // the next lookups of the live node by the leader do not find it (flapping follower, see stepRacingOnline)
 	crashed    bool         // the process died (see client.Reset); it answers nothing until it is restarted
 	partClosed bool         // its wal partition is closed (shutting down) while its rpc server still answers
-	built      bool         // a stream has been opened on this partition incarnation (its replica relation is built)
 	watchers   []func(models.NodeStateType)
 	handler    *storagerpc.ReplicaHandler
 
+	// the follower's write ahead log (production manager + log over a fake engine). side.fq/side.part
+	// are the log and the partition object the write ahead log created last for the family (see
+	// newWalPartition); side.dir is the wal directory of the node.
+	mgr         replica.WriteAheadLogManager
+	cancel      context.CancelFunc
+	shard       *fakeShard
+	family      *fakeFamily
+	wp          *walPartition // the object registered in the write ahead log
+	noPart      bool          // the wal task destroyed the partition: the next lookup creates a new one
+	goneApp     int64         // what a partition created now would report as appended (noPart only)
+	gen         int           // incarnations of the partition object
+	destroys    int           // destructions by the wal task in this process incarnation
+	lazy        bool          // the next partition object is created lazily after a destruction
+	clockPassed bool          // by this follower's clock the write window of the family has passed
+
 	// guarded by world.mu
 	pipe         *pipe
+	pipes        []*pipe // every stream ever opened to this follower incarnation (all are cancelled at the end)
 	failNextSend bool
 	failNextRecv bool
 	putFail      int            // the next putFail appends to the follower's log fail
@@ -153,7 +209,45 @@ type follower struct {
 	resyncPending bool
 }
 
-func (f *follower) app() int64 { return f.fq.Queue().AppendedSeq() }
+func (f *follower) app() int64 {
+	if f.noPart {
+		return f.goneApp
+	}
+	return f.fq.Queue().AppendedSeq()
+}
+
+// handsOutDestroyed: the follower's write ahead log would serve the call with a partition object
+// that its own wal task has stopped and closed (writeAheadLog.destroy takes an expired partition
+// out of the log before it closes it, so a lookup never returns one). Writing through such an object
+// (ResetReplicaIndex, NewLocalReplicator) goes into unmapped pages: the follower process - here: the
+// test process - would die. Reported by the test goroutine (world.check).
+func (f *follower) handsOutDestroyed(call string) bool {
+	if f.partClosed || f.crashed {
+		return false
+	}
+	p, err := f.mgr.GetOrCreateLog(dbName).GetOrCreatePartition(0, familyTime, leaderID)
+	if err != nil {
+		return false // (the handler reports the error to the leader)
+	}
+	wp, ok := p.(*walPartition)
+	if !ok || !wp.closed {
+		return false
+	}
+	w := f.w
+	w.mu.Lock()
+	if w.asyncErr == "" {
+		w.asyncErr = fmt.Sprintf("follower %d: %s of the leader is served with the partition object that the follower's wal task destroyed (stopped and closed): the write ahead log still hands it out; a write through it kills the follower process", f.id, call)
+	}
+	w.mu.Unlock()
+	f.crashed = true
+	return true
+}
+
+// built: the replica relation of the current partition object is built (by a stream, or by the
+// recovery of a restarted follower that found the consumer group on disk).
+func (f *follower) built() bool {
+	return !f.noPart && replica.VerifReplicator(f.part, f.id) != nil
+}
 
 type world struct {
 	t      *rapid.T
@@ -182,11 +276,13 @@ type world struct {
 	images   []string
 
 	// extended histories (see ext.go)
-	ext          bool // the extended operation set is generated
-	windowPassed bool // the write window of the family has passed: no more writes
-	destroyed    bool // the leader's wal task found the partition expired and removed its log
-	stuck        bool // a replication step stays blocked (reported): do not wait for it again
-	raced        int  // online notifications delivered while the loop marked itself suspended
+	ext                bool   // the extended operation set is generated
+	windowPassed       bool   // the write window of the family has passed: no more writes
+	asyncErr           string // a violation seen by a transport goroutine (reported by check)
+	offersAfterDestroy int    // offers answered by a stream handler whose partition the follower's wal task had destroyed
+	destroyed          bool   // the leader's wal task found the partition expired and removed its log
+	stuck              bool   // a replication step stays blocked (reported): do not wait for it again
+	raced              int    // online notifications delivered while the loop marked itself suspended
 }
 
 type stepRun struct {
@@ -289,6 +385,9 @@ func (c *client) Reset(ctx context.Context, in *protoReplicaV1.ResetIndexRequest
 	if !c.alive() {
 		return nil, errors.New("transport is closing")
 	}
+	if c.f.handsOutDestroyed("Reset") {
+		return nil, errors.New("transport is closing")
+	}
 	if c.f.partClosed {
 		// Partition.ResetReplicaIndex has no closed check: it would write the sequences into the
 		// unmapped meta page of the closed log, i.e. kill the follower process (and this test
@@ -318,7 +417,10 @@ func (c *client) Replica(ctx context.Context, _ ...grpc.CallOption) (protoReplic
 		return nil, errors.New("transport is closing")
 	}
 	w := c.f.w
-	if c.f.partClosed && !c.f.built {
+	if c.f.handsOutDestroyed("Replica (new stream)") {
+		return nil, errors.New("transport is closing")
+	}
+	if c.f.partClosed && !c.f.built() {
 		// the handler would build the replica relation of the closed partition:
 		// NewLocalReplicator writes the consumed sequence into the unmapped meta page of the
 		// closed consumer group, i.e. the follower process dies (as in client.Reset)
@@ -326,7 +428,6 @@ func (c *client) Replica(ctx context.Context, _ ...grpc.CallOption) (protoReplic
 		w.class("follower-dies-building-replica-on-closed-partition")
 		return nil, errors.New("transport is closing")
 	}
-	c.f.built = true
 	md, _ := metadata.FromOutgoingContext(ctx)
 	sctx, cancel := context.WithCancel(metadata.NewIncomingContext(context.Background(), md))
 	p := &pipe{f: c.f, ctx: sctx, cancel: cancel, reqCh: make(chan *protoReplicaV1.ReplicaRequest), respCh: make(chan *protoReplicaV1.ReplicaResponse, 1),
@@ -344,6 +445,9 @@ func (c *client) Replica(ctx context.Context, _ ...grpc.CallOption) (protoReplic
 	}
 	w.mu.Lock()
 	c.f.pipe = p
+	c.f.pipes = append(c.f.pipes, p)
+	p.gen = c.f.gen // (the handler has resolved its partition: created now if there was none)
+	p.afterDestroy = c.f.destroys > 0
 	w.mu.Unlock()
 	return &clientStream{p: p}, nil
 }
@@ -359,6 +463,19 @@ type pipe struct {
 	// closed when the handler waits for its first request
 	started     chan struct{}
 	startedOnce sync.Once
+	gen         int // incarnation of the follower's partition object the handler of this stream resolved
+	// that object was created after the wal task had destroyed an earlier one (same process)
+	afterDestroy bool
+}
+
+// open: the server side handler of the stream is still serving it.
+func (p *pipe) open() bool {
+	select {
+	case <-p.served:
+		return false
+	default:
+		return p.ctx.Err() == nil
+	}
 }
 
 func (p *pipe) breakNow() {
@@ -446,7 +563,12 @@ func (s *serverStream) Send(resp *protoReplicaV1.ReplicaResponse) error {
 	case resp.Err != "":
 		// the follower could not append the offered message (partition closed / append error)
 		f.refused = true
-		if strings.Contains(resp.Err, "closed") {
+		if strings.Contains(resp.Err, "closed") && !f.partClosed {
+			// the stream's handler still holds a partition object the follower's wal task destroyed
+			w.classes["offer-refused:partition-destroyed-by-the-follower-wal-task(stream-older-than-the-destruction)"]++
+			w.shapes["offer-over-a-stream-whose-partition-was-destroyed"] = true
+			w.offersAfterDestroy++
+		} else if strings.Contains(resp.Err, "closed") {
 			w.classes["offer-refused:partition-closed"]++
 			w.shapes["offer-to-follower-that-cannot-append"] = true
 		} else {
@@ -456,6 +578,10 @@ func (s *serverStream) Send(resp *protoReplicaV1.ReplicaResponse) error {
 	case resp.AckIndex == resp.ReplicaIndex:
 		// the follower appended this position (whether or not the answer reaches the leader)
 		f.has[resp.ReplicaIndex] = true
+		if s.p.afterDestroy {
+			w.classes["append-to-a-partition-object-created-after-a-destruction"]++
+			w.shapes["append-to-a-partition-object-created-after-a-destruction"] = true
+		}
 	default:
 		if f.refused {
 			w.classes["offer-refused:other-index-expected(after-append-error)"]++
@@ -472,23 +598,6 @@ func (s *serverStream) Send(resp *protoReplicaV1.ReplicaResponse) error {
 	}
 }
 
-// follower side WAL manager: hands the handler the follower's current partition.
-type walMgr struct {
-	replica.WriteAheadLogManager
-	f *follower
-}
-
-func (m *walMgr) GetOrCreateLog(_ string) replica.WriteAheadLog { return &wal{f: m.f} }
-
-type wal struct {
-	replica.WriteAheadLog
-	f *follower
-}
-
-func (l *wal) GetOrCreatePartition(_ models.ShardID, _ int64, _ models.NodeID) (replica.Partition, error) {
-	return l.f.part, nil
-}
-
 // failingLog is the follower's FanOutQueue; only Queue().Put is intercepted so that an append can
 // be made to fail (disk full, no new page) before it touches the log.
 type failingLog struct {
@@ -500,12 +609,22 @@ func (l *failingLog) Queue() queue.Queue { return l.q }
 
 type failingQueue struct {
 	queue.Queue
-	f *follower
+	f  *follower
+	wp *walPartition // the partition object this log belongs to
 }
 
 func (q *failingQueue) Put(m []byte) error {
 	w := q.f.w
 	w.mu.Lock()
+	if q.wp != nil && (q.wp.closed || q.wp.shutdown) {
+		// (Partition.ReplicaLog refuses on a closed partition before it touches the log: the pages
+		// of a closed log are unmapped, the append would kill the process)
+		if w.asyncErr == "" {
+			w.asyncErr = fmt.Sprintf("follower %d: a message is appended through a closed partition object (destroyed by the follower's wal task: %v; closed by the shutdown: %v): the append goes into the unmapped pages of the closed log and kills the follower process", q.f.id, q.wp.closed, q.wp.shutdown)
+		}
+		w.mu.Unlock()
+		return errors.New("harness: append to a closed log")
+	}
 	fail := q.f.putFail > 0
 	if fail {
 		q.f.putFail--
@@ -519,17 +638,14 @@ func (q *failingQueue) Put(m []byte) error {
 
 // ---- building both sides ---------------------------------------------------------------------------------
 
-func (w *world) newPartition(dir string, current models.NodeID, f *follower) side {
+// newPartition opens a leader partition (the leader's log is written by the harness directly).
+func (w *world) newPartition(dir string, current models.NodeID) side {
 	fq, err := queue.NewFanOutQueue(dir, 0)
 	if err != nil {
 		w.fatalf("open log %s: %v", dir, err)
 	}
-	log := fq
-	if f != nil {
-		log = &failingLog{FanOutQueue: fq, q: &failingQueue{Queue: fq.Queue(), f: f}}
-	}
 	db := &fakeDB{opt: &option.DatabaseOption{}}
-	p := replica.NewPartition(context.Background(), &fakeShard{db: db}, &fakeFamily{w: w}, current, log, &cliFct{w: w}, &stateMgr{w: w})
+	p := replica.NewPartition(context.Background(), &fakeShard{db: db}, &fakeFamily{w: w}, current, fq, &cliFct{w: w}, &stateMgr{w: w})
 	return side{dir: dir, fq: fq, part: p}
 }
 
@@ -539,19 +655,101 @@ func (w *world) openLeader() {
 		f.watchers = nil
 		ids = append(ids, f.id)
 	}
-	w.leader = w.newPartition(w.leader.dir, leaderID, nil)
+	w.leader = w.newPartition(w.leader.dir, leaderID)
 	if err := w.leader.part.BuildReplicaForLeader(leaderID, ids); err != nil {
 		w.fatalf("build replica: %v", err)
 	}
 }
 
+// openFollower starts a follower process: the production write ahead log manager over the wal
+// directory of the node, its recovery (partitions found on disk are opened, their replica
+// relations rebuilt from the consumer groups found), the rpc handler. The partition of the family
+// is created right away (as the first unary call of the leader would do).
 func (w *world) openFollower(f *follower) {
-	f.side = w.newPartition(f.dir, f.id, f)
-	f.handler = storagerpc.NewReplicaHandler(&walMgr{f: f})
-	f.partClosed, f.crashed, f.built = false, false, false
+	ctx, cancel := context.WithCancel(context.Background())
+	f.cancel = cancel
+	f.shard = &fakeShard{db: &fakeDB{opt: &option.DatabaseOption{}}, f: f}
+	f.family = &fakeFamily{w: w, f: f}
+	f.noPart, f.goneApp, f.wp = true, -1, nil
+	f.destroys, f.lazy = 0, false
+	f.partClosed, f.crashed = false, false
 	w.mu.Lock()
 	f.putFail = 0
+	f.pipes = nil
 	w.mu.Unlock()
+	cfg := config.WAL{Dir: f.dir, RemoveTaskInterval: ltoml.Duration(10000 * time.Hour)} // (the housekeeping is an operation of the history)
+	f.mgr = replica.NewWriteAheadLogManager(ctx, cfg, f.id, &fakeEngine{f: f}, &cliFct{w: w}, &stateMgr{w: w})
+	if err := f.mgr.Recovery(); err != nil {
+		w.fatalf("follower %d: wal recovery: %v", f.id, err)
+	}
+	if _, err := f.mgr.GetOrCreateLog(dbName).GetOrCreatePartition(0, familyTime, leaderID); err != nil {
+		w.fatalf("follower %d: create partition: %v", f.id, err)
+	}
+	f.handler = storagerpc.NewReplicaHandler(f.mgr)
+}
+
+// walPartition is what the follower's write ahead log registers for the family: the production
+// partition, except that its replication loop (the follower's local replicator applying the log to
+// the storage engine) is not free-running: the harness runs its steps (opFollowerApplies).
+type walPartition struct {
+	replica.Partition
+	f        *follower
+	expired  bool // verdict of the last IsExpire
+	closed   bool // closed through the write ahead log (wal task, or the end of the process)
+	shutdown bool // closed by opFollowerClosesPartition
+}
+
+func (p *walPartition) StartReplica() {}
+
+func (p *walPartition) IsExpire() bool {
+	p.expired = p.Partition.IsExpire()
+	return p.expired
+}
+
+func (p *walPartition) Close() error {
+	p.closed = true
+	return p.Partition.Close()
+}
+
+// newWalPartition is installed as replica.NewPartitionFn: the follower's write ahead log creates
+// the partition object of the family (at start, by recovery, or lazily at the next lookup after the
+// wal task destroyed the previous one).
+func (f *follower) newWalPartition(ctx context.Context, shard tsdb.Shard, family tsdb.DataFamily, current models.NodeID,
+	fq queue.FanOutQueue, cf rpc.ClientStreamFactory, sm storage.StateManager) replica.Partition {
+	fl := &failingQueue{Queue: fq.Queue(), f: f}
+	log := &failingLog{FanOutQueue: fq, q: fl}
+	p := replica.NewPartition(ctx, shard, family, current, log, cf, sm)
+	w := f.w
+	w.mu.Lock()
+	f.fq, f.part = fq, p
+	f.wp = &walPartition{Partition: p, f: f}
+	fl.wp = f.wp
+	lazily := f.lazy
+	f.noPart = false
+	f.gen++
+	if lazily {
+		w.classes["follower-partition-created-lazily-after-destruction"]++
+		if fq.Queue().AppendedSeq() >= 0 {
+			w.classes["follower-partition-created-lazily-after-destruction:log-reopened(directory-was-not-removed)"]++
+		} else {
+			w.classes["follower-partition-created-lazily-after-destruction:empty-log"]++
+		}
+		f.lazy = false
+	}
+	wp := f.wp
+	w.mu.Unlock()
+	return wp
+}
+
+func init() {
+	replica.NewPartitionFn = func(ctx context.Context, shard tsdb.Shard, family tsdb.DataFamily, current models.NodeID,
+		fq queue.FanOutQueue, cf rpc.ClientStreamFactory, sm storage.StateManager) replica.Partition {
+		if fs, ok := shard.(*fakeShard); ok && fs.f != nil {
+			return fs.f.newWalPartition(ctx, shard, family, current, fq, cf, sm)
+		}
+		return replica.NewPartition(ctx, shard, family, current, fq, cf, sm)
+	}
+	replica.VerifSetRemoveDirFn(removeDir)
 }
 
 func (w *world) breakStream(f *follower) {
@@ -859,9 +1057,20 @@ func (w *world) opFailRecv() {
 	w.noteFault(f)
 }
 
+// closeFollower stops a follower process (streams break; the write ahead log is stopped and closed
+// in the order of the production shutdown).
 func (w *world) closeFollower(f *follower) {
 	w.breakStream(f)
-	_ = f.part.Close()
+	w.mu.Lock()
+	pipes := f.pipes
+	f.pipes = nil
+	w.mu.Unlock()
+	for _, p := range pipes {
+		p.breakNow()
+	}
+	f.mgr.Stop()
+	_ = f.mgr.Close()
+	f.cancel()
 }
 
 func (w *world) opFollowerRestart() {
@@ -897,8 +1106,8 @@ func (w *world) opFollowerLosesLog() {
 // a follower restart, which breaks the stream.)
 func (w *world) opFollowerClosesPartition() {
 	f := w.pick()
-	if f.partClosed {
-		w.t.Skip("already closed")
+	if f.partClosed || f.noPart {
+		w.t.Skip("already closed / no partition object at present")
 	}
 	if ev.Known(sigZero) && f.app() < 0 {
 		// the only position the leader can offer to an empty follower is 0
@@ -907,6 +1116,9 @@ func (w *world) opFollowerClosesPartition() {
 	}
 	w.logf("fault: follower %d closes its wal partition (shutting down), stream stays open", f.id)
 	w.noteFault(f)
+	w.mu.Lock()
+	f.wp.shutdown = true
+	w.mu.Unlock()
 	_ = f.part.Close()
 	f.partClosed = true
 	w.class("fault-follower-partition-closed")
@@ -1093,6 +1305,12 @@ func (w *world) opLoseLastK() {
 // ---- oracle -------------------------------------------------------------------------------------------------
 
 func (w *world) check(where string) {
+	w.mu.Lock()
+	asyncErr := w.asyncErr
+	w.mu.Unlock()
+	if asyncErr != "" {
+		w.fatalf("%s: %s", where, asyncErr)
+	}
 	if w.step != nil {
 		return // a step is suspended inside production code; check again when it finished
 	}
@@ -1110,6 +1328,10 @@ func (w *world) checkFollower(where string, f *follower) {
 	}
 	fApp, fAck := fq.AppendedSeq(), fq.AcknowledgedSeq()
 	readable := !f.partClosed // the pages of a closed log are unmapped
+	if f.noPart {
+		// the follower's wal task destroyed the partition, no new one has been created yet
+		readable, fApp, fAck = false, f.goneApp, f.goneApp
+	}
 	// follower: gap free, each position holds a message the leader stored at that very position
 	for i := fAck + 1; readable && i <= fApp; i++ {
 		data, err := fq.Get(i)
@@ -1395,19 +1617,24 @@ func (w *world) close() {
 	w.leader.part.Stop()
 	_ = w.leader.part.Close()
 	for _, f := range w.fols {
-		w.breakStream(f)
-		_ = f.part.Close()
+		w.closeFollower(f)
 	}
 	_ = os.RemoveAll(w.root)
 }
 
 func runHistory(t *rapid.T) { runHistoryOf(t, "TestReplicationHistory", false) }
 
-func runHistoryOf(t *rapid.T, group string, ext bool) {
+func runHistoryOf(t *rapid.T, group string, ext bool) { runHistoryGen(t, group, ext, 1) }
+
+// runHistoryGen: flog = weight of the operations of the follower's log life cycle (followerlog_test.go).
+func runHistoryGen(t *rapid.T, group string, ext bool, flog int) {
 	// 1 follower: 3/8, 2 followers: 3/8, 3 followers: 2/8
 	dist := []int{1, 1, 1, 2, 2, 2, 3, 3}
 	if ext {
 		dist = []int{1, 2, 2, 2, 3, 3}
+	}
+	if flog > 1 {
+		dist = []int{1, 1, 1, 2, 2, 3}
 	}
 	n := rapid.SampledFrom(dist).Draw(t, "followers")
 	w := newWorld(t, n)
@@ -1434,6 +1661,7 @@ func runHistoryOf(t *rapid.T, group string, ext bool) {
 		"loseLastK":               func(t *rapid.T) { w.t = t; w.opLoseLastK() },
 		"":                        func(t *rapid.T) { w.t = t; w.check("after step") },
 	}
+	w.followerLogOps(ops, flog)
 	if ext {
 		w.extOps(ops)
 	}
@@ -1448,7 +1676,7 @@ func runHistoryOf(t *rapid.T, group string, ext bool) {
 		shapes = append(shapes, "case-with:"+s)
 	}
 	sort.Strings(shapes)
-	nonTrivial := w.faultHit > 0 || w.raced > 0 || w.shapes["expiry-check:followers-of-different-progress"]
+	nonTrivial := w.faultHit > 0 || w.raced > 0 || w.shapes["expiry-check:followers-of-different-progress"] || w.offersAfterDestroy > 0
 	ev.Case(group, strings.Join(w.ops, ";"), nonTrivial, shapes,
 		map[string]any{"history": w.ops, "faults_with_backlog": w.faultHit, "followers": n})
 }
@@ -1460,6 +1688,9 @@ func TestReplicationHistory(t *testing.T) {
 	t.Run("extended", func(t *testing.T) { rapid.Check(t, runHistoryExt) })
 	// offline/online cycles whose online notification races the suspension of the loop (ext_test.go)
 	t.Run("onlineRace", func(t *testing.T) { rapid.Check(t, runOnlineRace) })
+	// the follower's own log life cycle under an open stream: its wal task expires and destroys the
+	// partition, a new partition object is created lazily by the next lookup (followerlog_test.go)
+	t.Run("followerLog", func(t *testing.T) { rapid.Check(t, runFollowerLog) })
 }
 
 // once runs one deterministic scenario; rapid only provides the *rapid.T the world needs.
@@ -1572,6 +1803,7 @@ func TestRegression_ClosedPartitionRefusalAcksPosition0(t *testing.T) {
 		if w.waitData != f {
 			t.Fatalf("harness: the loop does not wait for data")
 		}
+		f.wp.shutdown = true
 		_ = f.part.Close() // the follower shuts down: partition closed, stream still open
 		f.partClosed = true
 		w.leaderPut(16) // position 0 is offered over the open stream
